@@ -81,7 +81,7 @@ struct gnutar {
 #define	GNUTAR_size_max_size 12
 #define	GNUTAR_mtime_offset 136
 #define	GNUTAR_mtime_size 11
-#define	GNUTAR_mtime_max_size 11
+#define	GNUTAR_mtime_max_size 12
 #define	GNUTAR_checksum_offset 148
 #define	GNUTAR_checksum_size 8
 #define	GNUTAR_typeflag_offset 156
@@ -673,9 +673,14 @@ archive_format_gnutar_header(struct archive_write *a, char h[512],
 		ret = ARCHIVE_FAILED;
 	}
 
-	/* Shouldn't overflow before 2106, since mtime field is 33 bits. */
-	format_octal(archive_entry_mtime(entry),
-	    h + GNUTAR_mtime_offset, GNUTAR_mtime_size);
+	/* GNU tar supports base-256 here, so should never overflow. */
+	if (format_number(archive_entry_mtime(entry),
+	    h + GNUTAR_mtime_offset, GNUTAR_mtime_size,
+	    GNUTAR_mtime_max_size)) {
+		archive_set_error(&a->archive, ERANGE,
+		    "File modification time out of range");
+		ret = ARCHIVE_FAILED;
+	}
 
 	if (archive_entry_filetype(entry) == AE_IFBLK
 	    || archive_entry_filetype(entry) == AE_IFCHR) {
@@ -715,7 +720,8 @@ format_number(int64_t v, char *p, int s, int maxsize)
 {
 	int64_t limit = ((int64_t)1 << (s*3));
 
-	if (v < limit)
+	/* Octal holds neither negative nor large values. */
+	if (v >= 0 && v < limit)
 		return (format_octal(v, p, s));
 	return (format_256(v, p, maxsize));
 }
@@ -726,6 +732,13 @@ format_number(int64_t v, char *p, int s, int maxsize)
 static int
 format_256(int64_t v, char *p, int s)
 {
+	/* The marker bit leaves 8 * s - 1 bits of two's complement. */
+	if (s < (int)sizeof(v) + 1) {
+		int64_t limit = (int64_t)1 << (8 * s - 2);
+
+		if (v >= limit || v < -limit)
+			return (-1);
+	}
 	p += s;
 	while (s-- > 0) {
 		*--p = (char)(v & 0xff);
